@@ -73,8 +73,7 @@ def layout_property(pid, tier, seed, protos, title_rule, more=None, level="model
     v = Verdict(pid)
     quick = tier != "thorough"
     lay, tp, st = tables(tier, w)
-    r1 = vh(["proto-layouts", "--layouts", lay, "--protos", ",".join(protos), "--reps", 3 if quick else 40, "--seed", seed],
-            name=pid.lower())
+    r1 = vhr(["proto-layouts", "--layouts", lay, "--protos", ",".join(protos)], 3 if quick else 40, seed, tier, name=pid.lower())
     v.add_report(r1, "layouts")
     reps = [r1]
     mc = []
@@ -89,3 +88,17 @@ def layout_property(pid, tier, seed, protos, title_rule, more=None, level="model
                     "field values are sampled from each wire type's domain (structure is enumerated exhaustively by TLC)",
                     "scripted transport hook"])
     return 1 if nviol else 0
+
+
+def valve_trace(pid, tier, seed, w, v, lay, tp):
+    """implementation -> specification: random recorded valve exchanges (more retries and challenge rounds than the
+    exhaustive configurations, junk replies) validated line by line against Trace_ValveA2S.tla.
+    Returns (harness report, runs validated, tlc stats)."""
+    quick = tier != "thorough"
+    tf = f"{w}/valve_trace.ndjson"
+    r = vh(["valve-trace", "--layouts", lay, "--templates", tp, "--runs", 6000 if quick else 250000, "--seed", seed,
+            "--out-trace", tf], name=pid.lower() + "vt")
+    v.add_report(r, "valve recorded exchanges")
+    validated, ts = validate_trace(v, "Trace_ValveA2S.tla", "Trace_ValveA2S.cfg", tf, splitter="Call", max_rounds=8)
+    ts = dict(ts, cfg="Trace_ValveA2S.cfg", events=r.get("extra", {}).get("events"))
+    return r, validated, ts
